@@ -130,7 +130,7 @@ def expected_channels(case, prev_full, k, m):
 def run(ctx):
     lines, pend = [], []
     per = ctx.scale(70, 800)
-    ctx.big_sparse = True      # modq.make_case queues one 131..140-node case per Louvain routine (direct oracle only)
+    ctx.big_sparse = True      # modq.make_case queues one 143..150-node case per Louvain routine (direct oracle only)
     for fn in ROUTINES:
         R = ROUTINES[fn]
         det = fn in DET
